@@ -666,7 +666,55 @@ func RunC09(col *core.Collector, tier, variant string, seed uint64, shard, nshar
 			}
 		}
 	}
-	// the deterministic witness of the known finding
+	// straddle scenarios: the writer is parked in one of its callbacks (before publication) while the load starts
+	sidx := 0
+	sreps := 1
+	if tier == "thorough" {
+		sreps = 20
+	}
+	for rep := 0; rep < sreps; rep++ {
+		for l := 0; l < numLoadKinds; l++ {
+			for w := 0; w < numWriteKinds; w++ {
+				if w == wkInvalidateAll {
+					continue
+				}
+				for pk := 0; pk < numParkSites; pk++ {
+					for ex := 0; ex < 4; ex++ {
+						sidx++
+						if sidx%nshards != shard {
+							continue
+						}
+						if l == lkGetExpired && ex%2 == 0 {
+							continue // with a same-goroutine executor the Get first runs the sweep, which needs the bucket lock
+						}
+						s := straddle{Load: l, Write: w, Park: pk, Exec: ex % 2, NotFound: ex >= 2}
+						wd.Arm()
+						v, inc, skipped := runStraddle(s)
+						wd.Disarm()
+						col.Eval(1)
+						progress.Add(1)
+						switch {
+						case skipped:
+							col.Count("straddle_not_applicable", 1)
+						case inc != "":
+							col.Count("straddle_inconclusive", 1)
+						default:
+							col.Count("straddle_judged", 1)
+							col.Count("straddle."+parkNames[pk], 1)
+							col.NonTrivial(core.HashJSON(s) + uint64(rep))
+						}
+						if v != "" {
+							path := filepath.Join(replayDir, fmt.Sprintf("C09-straddle-%x.json", core.HashJSON(s)))
+							data, _ := json.MarshalIndent(map[string]any{"engine": "c09-straddle", "scenario": s, "readable": s.String(), "violation": v}, "", " ")
+							os.WriteFile(path, data, 0o644)
+							col.Violation(core.Violation{Property: "C09", Signature: "c09-straddle:" + sigText(writeKindNames[w]+" in "+parkNames[pk]), Detail: s.String() + ": " + v, Replay: path})
+						}
+					}
+				}
+			}
+		}
+	}
+	// the deterministic witness of defect D8 (repaired), the first member of the straddle family
 	if shard == 0 {
 		v, inc := witnessD8()
 		col.Eval(1)
